@@ -1,76 +1,66 @@
 (** C33 — CSV import loads every row or reports an error.
-    Statement file: theorems closed by [exact] of lemmas of Proofs/Csv_facts.v, the full statements with
-    their refutations, non-vacuity examples. *)
+    Statement file (model of the code AFTER the fixes 85c538e and 4016039 in /repo): theorems closed by
+    [exact] of lemmas of Proofs/Csv_facts.v, regression and non-vacuity examples. *)
 From Coq Require Import String ZArith List Bool Lia.
 From Coq.Strings Require Import Byte.
 Import ListNotations.
 Require Import MS.Base.GoInt MS.Base.Res MS.Base.Hex MS.Base.Bytes MS.Generated.Src_io MS.Model.Csv MS.Proofs.Csv_facts.
 
-(** Guarded statement.  For EVERY float parser, column mapping, chunk size >= 1 and event stream WITHOUT a
-    csv read error (any number of records, any cell texts): if the import reports success, the loaded
-    dataset is exactly the conversion of ALL records of the file (timestamps and cells parsed),
-    independent of the chunking. *)
+(** The property at full strength.  For EVERY float parser, column mapping, chunk size >= 1 and event
+    stream (records and read errors in any positions, any cell texts): the import never crashes, and if it
+    reports success then no read error occurred anywhere in the file and the loaded dataset is exactly the
+    conversion of ALL records (timestamps and cells parsed), independent of the chunking. *)
+Definition C33_full : Prop := forall pf c evs,
+  1 <= c_chunk c -> load pf c evs <> Crash /\ forall d, load pf c evs = Loaded d -> all_loaded pf c evs d.
+
 Theorem C33_guarded : forall pf c evs d,
-  1 <= c_chunk c -> no_err evs = true -> load pf c evs = Loaded d -> all_loaded pf c evs d.
+  1 <= c_chunk c -> load pf c evs = Loaded d -> all_loaded pf c evs d.
 Proof. exact load_sound. Qed.
 Print Assumptions C33_guarded.
 
-(** ... and the import does not crash when every timestamp parses (with or without csv read errors). *)
-Theorem C33_no_crash : forall pf c evs, times_ok c evs = true -> load pf c evs <> Crash.
+Theorem C33_no_crash : forall pf c evs, load pf c evs <> Crash.
 Proof. exact load_no_crash. Qed.
 Print Assumptions C33_no_crash.
 
+Theorem C33_holds : C33_full.
+Proof. intros pf c evs Hc. split; [apply load_no_crash|]. intros d. apply load_sound. exact Hc. Qed.
+Print Assumptions C33_holds.
+
+(** A csv read error anywhere in the file is reported as an error. *)
+Theorem C33_reports_read_error : forall pf c evs,
+  1 <= c_chunk c -> no_err evs = false -> load pf c evs = Error.
+Proof. exact load_reports_read_error. Qed.
+Print Assumptions C33_reports_read_error.
+
 (** Completeness: a file without read errors whose every row converts (and whose column types have a
-    wire type string) IS loaded, for every chunk size >= 1 — the guarded theorem is not vacuous on any such file. *)
+    wire type string) IS loaded, for every chunk size >= 1. *)
 Theorem C33_complete : forall pf c evs d,
   1 <= c_chunk c -> wire_ok c = true -> no_err evs = true -> conv_spec pf c (rows_of evs) = Some d ->
   load pf c evs = Loaded d.
 Proof. exact load_complete. Qed.
 Print Assumptions C33_complete.
 
-(** Full statement (the property as given: all CSV files, rows with wrong field counts or unparsable
-    values at any position, all chunk sizes): the import never crashes, and success means every data
-    row was loaded.  Refuted twice. *)
-Definition C33_full : Prop := forall pf c evs,
-  1 <= c_chunk c -> load pf c evs <> Crash /\ forall d, load pf c evs = Loaded d -> all_loaded pf c evs d.
-Definition C33_full_noerr : Prop := forall pf c evs,
-  1 <= c_chunk c -> no_err evs = true ->
-  load pf c evs <> Crash /\ forall d, load pf c evs = Loaded d -> all_loaded pf c evs d.
-
 Definition nofloat : Z -> list byte -> option (list byte) := fun _ _ => None.
 Definition cfg1 : cfg := mkcfg 0 [(ET_INT32, 1)] 10.
 Definition b (s : string) : list byte := bytes_of_string s.
 
-(** class csv-read-error-treated-as-eof: the second record is malformed (Read returns an error that is
-    not io.EOF); the loop treats it as the end of the input: one of three rows is loaded, success *)
+(** Regression: the witnesses of the two defects fixed in /repo (formerly C33_refuted, C33_refuted_time)
+    now report an error. *)
 Definition C33_witness : list ev := [ERow [b "1600000000"; b "1"]; EErr; ERow [b "1600000120"; b "3"]].
+Example C33_regression_read_error : load nofloat cfg1 C33_witness = Error.
+Proof. vm_compute. reflexivity. Qed.
 
-Theorem C33_refuted : ~ C33_full.
-Proof.
-  intros H. destruct (H nofloat cfg1 C33_witness) as [_ H2]; [cbn; lia|].
-  destruct (H2 _ eq_refl) as [Hne _]. vm_compute in Hne. discriminate Hne.
-Qed.
-Print Assumptions C33_refuted.
-
-(** class unparsable-timestamp-panic: no read error, but the second timestamp does not parse:
-    convertCSVtoCSM returns (nil, nil) and the caller dereferences the nil series *)
 Definition C33_witness_time : list ev := [ERow [b "1600000000"; b "1"]; ERow [b "x123"; b "2"]].
+Example C33_regression_time : load nofloat cfg1 C33_witness_time = Error.
+Proof. vm_compute. reflexivity. Qed.
 
-Theorem C33_refuted_time : ~ C33_full_noerr.
-Proof.
-  intros H. destruct (H nofloat cfg1 C33_witness_time) as [H1 _]; [cbn; lia|reflexivity|].
-  apply H1. vm_compute. reflexivity.
-Qed.
-Print Assumptions C33_refuted_time.
-
-(** Non-vacuity: a stream of five records over int32/uint8/bool-free columns in permuted csv order, read in
-    chunks of two, satisfies the guards and loads all five rows. *)
+(** Non-vacuity: five records over int32/uint8/int64 columns in permuted csv order, read in chunks of two,
+    load completely. *)
 Definition cfg2 : cfg := mkcfg 0 [(ET_INT32, 2); (ET_UINT8, 1); (ET_INT64, 3)] 2.
 Definition evs2 : list ev :=
   [ERow [b "1600000000"; b "7"; b "-5"; b "9"]; ERow [b "1600000060.5"; b "255"; b "2147483647"; b "-1"];
    ERow [b "1600000120"; b "0"; b "0"; b "0"]; ERow [b "+1600000180"; b "1"; b "+1"; b "1"];
    ERow [b "1600000240.-5"; b "2"; b "-2147483648"; b "2"]].
 Example C33_nonvacuous :
-  (1 <= c_chunk cfg2) /\ no_err evs2 = true /\ times_ok cfg2 evs2 = true
-  /\ exists d, load nofloat cfg2 evs2 = Loaded d /\ length (d_times d) = 5.
-Proof. split; [cbn; lia|]. split; [reflexivity|]. split; [vm_compute; reflexivity|]. eexists. split; vm_compute; reflexivity. Qed.
+  (1 <= c_chunk cfg2) /\ exists d, load nofloat cfg2 evs2 = Loaded d /\ length (d_times d) = 5.
+Proof. split; [cbn; lia|]. eexists. split; vm_compute; reflexivity. Qed.
